@@ -33,6 +33,7 @@
 
 #include "signals.h"            /* setup_signals() */
 #include "main.h"               /* pname */
+#include "verif.h"
 
 
 unsigned num_worker;            /* -n */
@@ -914,6 +915,9 @@ main(int argc, char **argv)
   pname = strrchr(argv[0], '/');
   pname = pname ? pname + 1 : argv[0];
   setbuf(stderr, stderr_buf);
+#ifdef KJN_LBZIP2_VERIF
+  verif_init();
+#endif
   setup_signals();
   opts_setup(&operands, argc, argv);
 
